@@ -429,6 +429,20 @@ deriving Repr, Inhabited
 
 def utf8Of (l : List Char) : List Nat := (String.ofList l).toUTF8.toList.map (·.toNat)
 
+/-- the arguments of an `INDEX` line -/
+def classifyIndex (p : Profile) (cdda : Bool) (rest : List Char) : Tok :=
+  match splitOnce ' ' rest with
+  | none => .index none none
+  | some (n, o) =>
+    match parseUnsigned 8 n with
+    | none => .index none none
+    | some nv =>
+      if cdda then
+        match parseMsf p o with
+        | .error e => .trap e
+        | .ok ov => .index (some nv) ov
+      else .index (some nv) (parseUnsigned 64 o)
+
 def classify (p : Profile) (cdda : Bool) (line : List Char) : Tok :=
   let line := trimChars line
   let (cmd, rest) := (splitOnce ' ' line).getD (line, [])
@@ -442,18 +456,7 @@ def classify (p : Profile) (cdda : Bool) (line : List Char) : Tok :=
     | some (n, _) => match parseUnsigned 8 n with
       | some v => if v == 0 then .track none else .track (some v)
       | none => .track none
-  else if cmd == "INDEX".toList then
-    match splitOnce ' ' rest with
-    | none => .index none none
-    | some (n, o) =>
-      match parseUnsigned 8 n with
-      | none => .index none none
-      | some nv =>
-        if cdda then
-          match parseMsf p o with
-          | .error e => .trap e
-          | .ok ov => .index (some nv) ov
-        else .index (some nv) (parseUnsigned 64 o)
+  else if cmd == "INDEX".toList then classifyIndex p cdda rest
   else if cmd == "ISRC".toList then .isrc (isrcFromStr (utf8Of (unquote rest)))
   else if cmd == "FLAGS".toList && rest == "PRE".toList then .flagsPre
   else .other
